@@ -35,7 +35,7 @@ def shards(tier):
 
 def strategy(tier):
     mixed = G.graph_strategy(G.OPTIN_NAMES * 2 + ['P0', 'P1', 'P3', 'PM0', 'PM1'], std=False, max_nodes=10)
-    return st.builds(lambda g, p: dict(g, protocol=p), mixed, st.sampled_from([2, 3, 4, 4, 5]))
+    return st.builds(lambda g, p: dict(g, protocol=p), mixed, st.sampled_from([0, 1, 2, 3, 4, 4, 5]))
 
 
 # ---- enumerated shape grammar -------------------------------------------------------------------
@@ -322,4 +322,5 @@ _SIB = {'feat:optin_parent_with>=2_optin_direct_children', 'feat:optin_direct_ch
 TRIGGERS = {
     'sibling_shared_or_cyclic_optin_direct_children': lambda case, outd, v: bool(_SIB & set(outd['labels'])),
     'optin_with_none_remote_state': lambda case, outd, v: 'feat:none_state' in outd['labels'],
+    'protocol_0_or_1_and_falsy_state': lambda case, outd, v: case.get('protocol', 4) < 2 and 'feat:falsy_state' in outd['labels'],
 }
